@@ -5,4 +5,4 @@ THEOREMS = ['unretrievable_not_found', 'self_findable_by_id', 'empty_means_zero'
 
 
 def run():
-    run_store('C17', THEOREMS, """Focus: after every step, for each event seen, every filter shape its own fields satisfy (id; author; author+kind; each single-letter tag value alone, with author, with kind; a time window) must return it iff it is retrievable; the id, time, author and author-kind entry counts equal the number of retrievable events; all counts are zero when nothing is retrievable.""", {'counts', 'selffind', 'query'}, relevant={'STA', 'FND', 'HAS'})
+    run_store('C17', THEOREMS, """Focus: after every step, for each event seen, every filter shape its own fields satisfy (id; author; author+kind; each single-letter tag value alone, with author, with kind; a time window) must return it iff it is retrievable; the id, time, author and author-kind entry counts equal the number of retrievable events; all counts are zero when nothing is retrievable.""", {'counts', 'selffind', 'query'}, relevant={'STA', 'FND', 'HAS', 'KYS'})
